@@ -440,8 +440,17 @@ func (p *untypedParamBinder) tryUnmarshaler(target reflect.Value, defaultValue i
 	// When a type implements encoding.TextUnmarshaler we'll use that instead of reflecting some more
 	if reflect.PtrTo(target.Type()).Implements(textUnmarshalType) {
 		if defaultValue != nil && len(data) == 0 {
-			target.Set(reflect.ValueOf(defaultValue))
-			return true, nil
+			defVal := reflect.ValueOf(defaultValue)
+			if defVal.Type().AssignableTo(target.Type()) {
+				target.Set(defVal)
+				return true, nil
+			}
+			// a default from the description document is text: let the type parse it like a request value
+			text, isText := defaultValue.(string)
+			if !isText {
+				return true, fmt.Errorf("default value of type %T cannot be used for %s", defaultValue, target.Type())
+			}
+			data = text
 		}
 		value := reflect.New(target.Type())
 		if err := value.Interface().(encoding.TextUnmarshaler).UnmarshalText([]byte(data)); err != nil {
